@@ -45,6 +45,14 @@ func draw(t *rapid.T) *pbt.Case {
 		}
 	case 1:
 		s = &gen.Spec{K: rapid.SampledFrom([]string{"secondary", "combine"}).Draw(t, "sec"), C: g.Draw(t, 3), X: []*gen.Spec{hidden}}
+		if rapid.IntRange(0, 2).Draw(t, "marktwin") == 0 {
+			// The secondary error has the same types and message as the
+			// primary one (a sentinel reused on two code paths) but carries
+			// other safe annotations: both sets must be retained.
+			k := rapid.SampledFrom([]string{"telemetry", "safedetails", "issuelink"}).Draw(t, "twinkind")
+			s.C = g.WrapOf(t, k, hidden)
+			s.X[0] = g.WrapOf(t, k, hidden.Clone())
+		}
 	default:
 		s = hidden
 	}
@@ -135,6 +143,21 @@ func check(c *pbt.Case, r *pbt.R) {
 					if !have[tk] {
 						r.Failf("a tag value declared safe is missing from the report and the safe details", "token %s (hop %d)\nspec %s", tk, i, c.Spec)
 					}
+				}
+			}
+		}
+		// The safe details a foreign type reports for itself are kept as
+		// well, also when the type records a stack trace of its own
+		// (claimed on the visible single-cause chain: GetAllSafeDetails
+		// does not descend into multi-cause branches, and the report lists
+		// a stack-carrying layer by its frames).
+		for x := c.Spec; x != nil && !gen.IsBarrierKind(x.K) && !gen.IsMultiKind(x.K); x = x.C {
+			if x.K != "uwrapstackdetails" {
+				continue
+			}
+			for _, tk := range gen.Tokens(x.S[0]) {
+				if !have[tk] {
+					r.Failf("declared-safe string missing from the report and the safe details (safe details of a foreign type that also has a stack trace)", "token %s (hop %d)\nspec %s", tk, i, c.Spec)
 				}
 			}
 		}
